@@ -483,6 +483,9 @@ impl<'l, Data> EventLoop<'l, Data> {
         data: &mut Data,
     ) -> crate::Result<()> {
         let now = Instant::now();
+        // Synthetic events left behind by a dispatch that failed after a `before_sleep` hook had
+        // returned them belong to that dispatch: this one only delivers its own.
+        self.synthetic_events.clear();
         {
             let mut extra_lifecycle_sources = self
                 .handle
